@@ -101,12 +101,55 @@ void exports_valprobe_echo_strs(valprobe_list_string_t *a, valprobe_list_string_
   }
 }
 
+static valprobe_person_t seen_person, ret_person; static uint8_t seen_tags[2], ret_tags[2]; static size_t ret_tags_len;
+void exports_valprobe_echo_person(valprobe_person_t *a, valprobe_person_t *ret) {
+  calls++; seen_person = *a; take_bytes(a->name.ptr, a->name.len);
+  if (a->tags.len >= 1) seen_tags[0] = a->tags.ptr[0]; if (a->tags.len >= 2) seen_tags[1] = a->tags.ptr[1];
+  valprobe_person_free(a);            /* the callee owns its argument: the generated helper frees both buffers */
+  ret->id = ret_person.id; ret->age = ret_person.age;
+  give_string(&ret->name);
+  ret->tags.len = ret_tags_len; ret->tags.ptr = ret_tags_len ? (uint8_t *) malloc(ret_tags_len) : (uint8_t *) 1;
+  if (ret_tags_len) { __CPROVER_assume(ret->tags.ptr != NULL); fill_bytes(ret->tags.ptr, ret_tags_len, ret_tags); }
+}
+static _Bool seen_rstr_err, ret_rstr_err; static uint32_t seen_rstr_code, ret_rstr_code;
+bool exports_valprobe_echo_rstr(valprobe_result_string_u32_t *a, valprobe_string_t *ret, uint32_t *err) {
+  calls++; seen_rstr_err = a->is_err;
+  if (a->is_err) seen_rstr_code = a->val.err; else take_bytes(a->val.ok.ptr, a->val.ok.len);
+  valprobe_result_string_u32_free(a);
+  if (ret_rstr_err) { *err = ret_rstr_code; return false; }
+  give_string(ret); return true;
+}
+
+static valprobe_fvar_t seen_fvar, ret_fvar;
+void exports_valprobe_echo_fvar(valprobe_fvar_t *a, valprobe_fvar_t *ret) { calls++; seen_fvar = *a; *ret = ret_fvar; }
+
 /* ------------------------------------------------------------------ mock host for the import */
 static unsigned sink_calls; static int32_t sink_disc; static size_t sink_len; static uint8_t *sink_elem_ptr; static size_t sink_elem_len;
 int32_t __wasm_import_verif_val_sinks_nested_list(int32_t disc, uint8_t *records, size_t len) {
   sink_calls++; sink_disc = disc; sink_len = len;
   if (disc == 1 && len >= 1) { sink_elem_ptr = *((uint8_t **) (records + 0)); sink_elem_len = *((size_t *) (records + P)); }
   return disc;
+}
+
+/* the host side of send-fvar: lifts the flat (case, joined i64 slot) the way CanonicalABI.md's lift_flat_variant does (an f32 in an i64 slot is
+ * wrap-to-i32 then reinterpret; the bits above 32 are ignored), and stores its own result at the canonical offsets (case @0, payload @8) */
+union f32bits { float f; uint32_t u; }; union f64bits { double d; uint64_t u; };
+static unsigned fvar_calls; static int32_t host_fvar_case; static uint64_t host_fvar_bits; static uint8_t host_ret_case; static uint64_t host_ret_bits;
+void __wasm_import_verif_val_sinks_send_fvar(int32_t c, int64_t slot, uint8_t *ret) {
+  fvar_calls++; host_fvar_case = c; host_fvar_bits = c == 0 ? (uint64_t) (uint32_t) slot : (uint64_t) slot;
+  *((uint8_t *) (ret + 0)) = host_ret_case;
+  if (host_ret_case == 0) *((uint32_t *) (ret + 8)) = (uint32_t) host_ret_bits; else *((uint64_t *) (ret + 8)) = host_ret_bits;
+}
+static uint64_t fvar_bits(const verif_val_t_fvar_t *v) {
+  if (v->tag == 0) { union f32bits b; b.f = v->val.f; return b.u; }
+  if (v->tag == 1) return v->val.w;
+  union f64bits b; b.d = v->val.d; return b.u;
+}
+static void fvar_set(verif_val_t_fvar_t *v, uint8_t tag, uint64_t bits) {
+  v->tag = tag;
+  if (tag == 0) { union f32bits b; b.u = (uint32_t) bits; v->val.f = b.f; }
+  else if (tag == 1) v->val.w = bits;
+  else { union f64bits b; b.u = bits; v->val.d = b.d; }
 }
 
 /* a buffer as the host obtains it from cabi_realloc */
@@ -178,6 +221,24 @@ void c10_variant_numeric(void) {
   __wasm_export_exports_valprobe_echo_shape_post_return(ret);
 }
 
+/* an f32 whose payload slot another case widens to i64 (variant { f(f32), w(u64), d(f64) }): every bit pattern, NaNs included, both directions */
+void c10_f32_in_wide_variant_import(void) {
+  uint8_t tag = nondet_uchar(); __CPROVER_assume(tag < 3); uint64_t bits = nondet_ulonglong(); if (tag == 0) bits = (uint32_t) bits;
+  host_ret_case = nondet_uchar(); __CPROVER_assume(host_ret_case < 3); host_ret_bits = nondet_ulonglong(); if (host_ret_case == 0) host_ret_bits = (uint32_t) host_ret_bits;
+  verif_val_sinks_fvar_t v, r; fvar_set(&v, tag, bits);
+  verif_val_sinks_send_fvar(&v, &r);
+  ASSERT(fvar_calls == 1 && host_fvar_case == tag && host_fvar_bits == bits, "C10: the host lifts the case and exactly the payload bits the C code sent (f32 / u64 / f64 in the joined i64 slot)");
+  ASSERT(r.tag == host_ret_case && fvar_bits(&r) == host_ret_bits, "C10: the C code receives the case and exactly the payload bits the host returned");
+}
+void c10_f32_in_wide_variant_export(void) {
+  stale_ret_area();
+  uint8_t tag = nondet_uchar(), rtag = nondet_uchar(); __CPROVER_assume(tag < 3 && rtag < 3);
+  uint64_t bits = nondet_ulonglong(), rbits = nondet_ulonglong(); if (tag == 0) bits = (uint32_t) bits; if (rtag == 0) rbits = (uint32_t) rbits;
+  fvar_set(&ret_fvar, rtag, rbits);
+  uint8_t *ret = __wasm_export_exports_valprobe_echo_fvar(tag, (int64_t) bits);   /* the host zero-extends an f32's bits into the i64 slot */
+  ASSERT(calls == 1 && seen_fvar.tag == tag && fvar_bits(&seen_fvar) == bits, "C10: the case and payload bits the host sent arrive unchanged");
+  ASSERT(RD(uint8_t, ret, 0) == rtag && (rtag == 0 ? RD(uint32_t, ret, 8) == (uint32_t) rbits : RD(uint64_t, ret, 8) == rbits), "C10: the returned case and payload bits are stored at the canonical offsets");
+}
 /* ================================================================== C10 + C11: heap data, bounded lengths */
 static void any_lengths(size_t *n, size_t *m) {
   *n = nondet_uint(); *m = nondet_uint(); __CPROVER_assume(*n <= 2 && *m <= 2);
@@ -250,6 +311,47 @@ void c10_c11_list_of_strings(void) {
   ASSERT(rl == m, "C10: returned length");
   if (m) { uint8_t *ep = RD(uint8_t *, rp, 0); size_t el = RD(size_t, rp, P); ASSERT(el == ret_inner_len && (el < 1 || ep[0] == ret_b[0]), "C10: the returned element reaches the host unchanged"); }
   __wasm_export_exports_valprobe_echo_strs_post_return(ret);
+}
+void c10_c11_record_with_heap_fields(void) {
+  stale_ret_area();
+  size_t n = nondet_uint(), t = nondet_uint(), m = nondet_uint(), u = nondet_uint(); __CPROVER_assume(n <= 2 && t <= 2 && m <= 2 && u <= 2);
+  uint16_t id = nondet_uint(); uint8_t age = nondet_uchar(); ret_person.id = nondet_uint(); ret_person.age = nondet_uchar();
+  uint8_t nameb[2] = { nondet_uchar(), nondet_uchar() }, tagb[2] = { nondet_uchar(), nondet_uchar() };
+  ret_b[0] = nondet_uchar(); ret_b[1] = nondet_uchar(); ret_len = m; ret_tags[0] = nondet_uchar(); ret_tags[1] = nondet_uchar(); ret_tags_len = u;
+  uint8_t *pn = host_alloc(n, 1); if (n) fill_bytes(pn, n, nameb);
+  uint8_t *pt = host_alloc(t, 1); if (t) fill_bytes(pt, t, tagb);
+  uint8_t *ret = __wasm_export_exports_valprobe_echo_person((int32_t) id, pn, n, pt, t, (int32_t) age);
+  ASSERT(calls == 1 && seen_person.id == id && seen_person.age == age, "C10: the record's scalar fields arrive unchanged");
+  ASSERT(seen_len == n && (n < 1 || seen_b[0] == nameb[0]) && (n < 2 || seen_b[1] == nameb[1]), "C10: the record's string field arrives unchanged");
+  ASSERT(seen_person.tags.len == t && (t < 1 || seen_tags[0] == tagb[0]) && (t < 2 || seen_tags[1] == tagb[1]), "C10: the record's list field arrives unchanged");
+  ASSERT(RD(uint16_t, ret, 0) == ret_person.id && RD(uint8_t, ret, 5 * P) == ret_person.age, "C10: the returned scalar fields at their canonical offsets (u16 @0, u8 @5P)");
+  uint8_t *np = RD(uint8_t *, ret, P); size_t nl = RD(size_t, ret, 2 * P);
+  ASSERT(nl == m && (m < 1 || np[0] == ret_b[0]) && (m < 2 || np[1] == ret_b[1]), "C10: the returned string field reaches the host unchanged");
+  uint8_t *tp = RD(uint8_t *, ret, 3 * P); size_t tl = RD(size_t, ret, 4 * P);
+  ASSERT(tl == u && (u < 1 || tp[0] == ret_tags[0]) && (u < 2 || tp[1] == ret_tags[1]), "C10: the returned list field reaches the host unchanged");
+  __wasm_export_exports_valprobe_echo_person_post_return(ret);
+}
+void c10_c11_result_with_string(void) {
+  stale_ret_area();
+  size_t n, m; any_lengths(&n, &m);
+  _Bool in_err = nondet_bool(); ret_rstr_err = nondet_bool(); uint32_t e = nondet_uint(); ret_rstr_code = nondet_uint();
+  uint8_t in[2] = { nondet_uchar(), nondet_uchar() }; ret_b[0] = nondet_uchar(); ret_b[1] = nondet_uchar(); ret_len = m;
+  uint8_t *ret;
+  if (in_err) {
+    ret = __wasm_export_exports_valprobe_echo_rstr(1, (uint8_t *) e, 0);   /* the i32 error code travels in the slot it shares with the pointer */
+  } else {
+    uint8_t *p = host_alloc(n, 1); if (n) fill_bytes(p, n, in);
+    ret = __wasm_export_exports_valprobe_echo_rstr(0, p, n);
+  }
+  ASSERT(calls == 1 && seen_rstr_err == in_err, "C10: the result's case arrives unchanged");
+  ASSERT(in_err ? seen_rstr_code == e : (seen_len == n && (n < 1 || seen_b[0] == in[0]) && (n < 2 || seen_b[1] == in[1])), "C10: the result's payload arrives unchanged");
+  if (ret_rstr_err) {
+    ASSERT(RD(uint8_t, ret, 0) == 1 && RD(uint32_t, ret, P) == ret_rstr_code, "C10: err(u32) is stored at the payload offset");
+  } else {
+    uint8_t *rp = RD(uint8_t *, ret, P); size_t rl = RD(size_t, ret, 2 * P);
+    ASSERT(RD(uint8_t, ret, 0) == 0 && rl == m && (m < 1 || rp[0] == ret_b[0]) && (m < 2 || rp[1] == ret_b[1]), "C10: ok(string) reaches the host unchanged");
+  }
+  __wasm_export_exports_valprobe_echo_rstr_post_return(ret);
 }
 /* import arguments are borrowed: passed, left untouched, still owned (and freed) by the caller */
 void c11_import_arguments_untouched(void) {
